@@ -19,7 +19,7 @@ import (
 )
 
 func init() {
-	core.Register(core.Check{ID: "C15", Level: "exploration", Run: func(c *core.Ctx) { runC15(c); historyPass(c, "C15"); reentrancyPass(c, "C15") }})
+	core.Register(core.Check{ID: "C15", Level: "exploration", Run: func(c *core.Ctx) { runC15(c); historyPass(c, "C15"); reentrancyPass(c, "C15"); arch386Pass(c, "C15") }})
 }
 
 type c15leaf struct {
